@@ -347,8 +347,8 @@ pub fn compaction_programs(tier: &str) -> Vec<Program> {
 }
 
 pub fn worker(wi: usize, wn: usize, tier: &str) {
-    let bound: usize = std::env::var("C05_BOUND").ok().and_then(|s| s.parse().ok()).unwrap_or(if tier == "thorough" { 2 } else { 1 });
-    let max_execs: usize = std::env::var("C05_MAX_EXECS").ok().and_then(|s| s.parse().ok()).unwrap_or(if tier == "thorough" { 60_000 } else { 6_000 });
+    let bound: usize = std::env::var("C05_BOUND").ok().and_then(|s| s.parse().ok()).unwrap_or(if tier == "thorough" { 3 } else { 1 });
+    let max_execs: usize = std::env::var("C05_MAX_EXECS").ok().and_then(|s| s.parse().ok()).unwrap_or(if tier == "thorough" { 150_000 } else { 6_000 });
     let mut agg = Agg::default();
     let mut idx = 0;
     for p in programs(tier) {
@@ -438,13 +438,13 @@ pub fn run(tier: &str, replay: Option<&str>) -> i32 {
         }
         rep.report_bag(&r["violations"]);
     }
-    let bound: usize = std::env::var("C05_BOUND").ok().and_then(|s| s.parse().ok()).unwrap_or(if tier == "thorough" { 2 } else { 1 });
+    let bound: usize = std::env::var("C05_BOUND").ok().and_then(|s| s.parse().ok()).unwrap_or(if tier == "thorough" { 3 } else { 1 });
     ev.set("states", tot["points"]);
     ev.set("transitions", tot["points"]);
     ev.set("traces_validated_against_impl", tot["executions"]);
     ev.set("evaluations", tot["executions"]);
     ev.set("distinct_nontrivial", tot["preempted_distinct"]);
-    ev.set("rule", format!("programs: one writer thread (insert / delete / overwrite pair / insert-delete / delete-insert on id 1) x one other thread (point read, read with metadata, bulk read, existence probe, cache-aware read, read pairs, competing insert/delete, write-then-read) and three-thread single-op mixes, each from 4 initial states (absent, cold-only, cached, in recent-write tier); every schedule with <= {bound} preemptions at lock granularity on a fresh TieredEngine; oracle: brute-force linearizability per document against a sequential map (real-time order from scheduler stamps), vector and metadata of one read from the same write, then a sequential epilogue (all read flavours, forced drain, reads again) whose result must be the final state of some linearization and must not change across the drain. non-trivial = executions with >=1 preemption whose observed return values differ from every preemption-free execution of the same program; plus the compaction family from a full index with a tombstone in slot 0, with and without persistence: insert of a new id (tombstone compaction renumbers internal ids) x {{query, get_document_with_metadata, bulk_query, cache-aware embedding read, delete, overwrite, metadata update + read}} on id 1, both thread orders, <= 2 preemptions"));
+    ev.set("rule", format!("programs: one writer thread (insert / delete / overwrite pair / insert-delete / delete-insert on id 1) x one other thread (point read, read with metadata, bulk read, existence probe, cache-aware read, read pairs, competing insert/delete, write-then-read) and three-thread single-op mixes, each from 4 initial states (absent, cold-only, cached, in recent-write tier); every schedule with <= {bound} preemptions at lock granularity on a fresh TieredEngine; oracle: brute-force linearizability per document against a sequential map (real-time order from scheduler stamps), vector and metadata of one read from the same write, then a sequential epilogue (all read flavours, forced drain, reads again) whose result must be the final state of some linearization and must not change across the drain. non-trivial = executions with >=1 preemption whose observed return values differ from every preemption-free execution of the same program; plus the compaction family from a full index with a tombstone in slot 0, with and without persistence: insert of a new id (tombstone compaction renumbers internal ids) x {{query, get_document_with_metadata, bulk_query, cache-aware embedding read, delete, overwrite, metadata update + read}} on id 1, both thread orders, at least 2 preemptions"));
     ev.set("samples", json!([{"program":[["insert(1,w11)","delete(1)"],["get_document_with_metadata(1)","query(1)"]],"init":"Cached"}]));
     ev.set("exhaustive", tot["capped"] == 0);
     ev.set("programs", tot["programs"]);
